@@ -22,7 +22,8 @@ From PV Require Import Lib.Bytes Model.Redundant Model.RedundantPaths Model.Redu
   Spec.PathDenote Spec.SpellingIndep
   Proofs.RedundantRefuted Proofs.RedundantSound Proofs.RedundantReads Proofs.RedundantTotal
   Proofs.RedundantPaths Proofs.RedundantCond Proofs.RedundantCondSim
-  Spec.VerdictSound2 Proofs.RedundantSound2 Proofs.RedundantSound3 Proofs.RedundantSound4.
+  Spec.VerdictSound2 Proofs.RedundantSound2 Proofs.RedundantSound3 Proofs.RedundantSound4
+  Model.RedundantDir Spec.MakeEvalDir Spec.VerdictSoundDir Proofs.RedundantDir.
 
 Definition C17_verdict_sound_full : Prop :=
   forall (p : program) (vs : list verdict) (vd : verdict),
@@ -352,3 +353,102 @@ Theorem C17_verdict_sound_cond_partial4 :
     guard4 (map snd p) vd = true -> deletable (map snd p) (vd_flagged vd).
 Proof. exact verdict_sound_cond4. Qed.
 Print Assumptions C17_verdict_sound_cond_partial4.
+
+(* ---------- makefiles with directives (round 5) ----------
+
+   dprogram      : lines with .if [!]defined/empty(X) / .else / .endif, .for / .endfor, .undef,
+                   .include, files from mk/ (Model/RedundantDir.v, with the Indentation stack,
+                   findGuardLine and the two callers check_file / check_pkg)
+   final_d       : make's evaluation of such a makefile (Spec/MakeEvalDir.v)
+   deletable_d   : removing the given lines leaves every final value unchanged *)
+
+(* After ".undef x" - in a package file or in a file from mk/, inside a condition or not -
+   no assignment to x gets or causes a verdict, whatever stands in between: no verdict
+   relates lines across an .undef of that variable. *)
+Theorem C17_undef_forgets :
+  forall (g : option nat) (pre : dprogram) (l : dline) (rest : dprogram)
+         (per : list (list verdict)) (x : var) (j : nat) (l2 : dline),
+    check_lines_d g (pre ++ l :: rest) = Ok per -> d_undefs x l = true ->
+    nth_error rest j = Some l2 -> d_assigns x l2 = true ->
+    nth_error per (S (length pre + j)) = Some [].
+Proof. exact undef_forgets. Qed.
+Print Assumptions C17_undef_forgets.
+
+(* An assignment inside an .if/.for section other than the multiple-inclusion guard of its
+   MkLines gets no verdict and causes none - for every condition, taken by make or not.
+   [in_conditional_section] is a specification of its own (Spec/VerdictSoundDir.v), not the
+   Indentation stack of the model. *)
+Theorem C17_conditional_line_silent_real_conditions :
+  forall (g : option nat) (p : dprogram) (per : list (list verdict)) (j : nat) (l : dline) (a : assign),
+    check_lines_d g p = Ok per -> nth_error p j = Some l -> dl_body l = DAssign a ->
+    in_conditional_section g (firstn j p) = true -> nth_error per j = Some [].
+Proof. exact conditional_line_silent_d. Qed.
+Print Assumptions C17_conditional_line_silent_real_conditions.
+
+(* The evaluator with directives is the old evaluator on makefiles without directives,
+   "deletable" means there what it meant, and the model with directives is the old model. *)
+Theorem C17_evaldir_conservative :
+  forall (fuel : nat) (p : sprogram) (x : str), final_d fuel (lift p) x = final fuel p x.
+Proof. exact evaldir_conservative. Qed.
+Print Assumptions C17_evaldir_conservative.
+
+Theorem C17_deletable_d_conservative :
+  forall (p : program) (i : nat), deletable_d (embed p) [i] <-> deletable p i.
+Proof. exact deletable_d_embed. Qed.
+Print Assumptions C17_deletable_d_conservative.
+
+Theorem C17_check_pkg_conservative : forall p : program, check_pkg (embed p) = check p.
+Proof. exact check_pkg_embed. Qed.
+Print Assumptions C17_check_pkg_conservative.
+
+Theorem C17_check_d_conservative : forall (g : option nat) (p : program), check_d g (embed p) = check p.
+Proof. exact check_d_embed. Qed.
+Print Assumptions C17_check_d_conservative.
+
+(* Soundness of the verdicts of a whole package with directives: false of the code as it is.
+   A condition in a file from mk/ is not counted as a read (RedundantScope.handleExpr returns
+   early for directives of the infrastructure):
+     Makefile: VA= a / .include "../../mk/reset.mk" / VA= b     mk/reset.mk: .if defined(VA) / VB= a / .endif
+   -> "Makefile:1: Variable VA is overwritten in line 3"; without line 1 VB stays undefined.
+   (Reproduced on the binary; finding C17/unsound/directives/condition-in-mk-file-reads-variable.
+   The same condition in a file of the package is a read: no verdict.) *)
+Definition C17_verdict_sound_dir_full : Prop :=
+  forall (p : dprogram) (vs : list verdict) (vd : verdict),
+    check_pkg p = Ok vs -> In vd vs -> deletable_d p [vd_flagged vd].
+
+Theorem C17_verdict_sound_dir_refuted : ~ C17_verdict_sound_dir_full.
+Proof. exact verdict_sound_dir_refuted. Qed.
+Print Assumptions C17_verdict_sound_dir_refuted.
+
+Example C17_package_condition_is_a_read : check_pkg witness_package_condition = Ok [].
+Proof. exact package_condition_is_a_read. Qed.
+
+(* Proved: on makefiles without directives, seen through the model and the evaluator WITH
+   directives, the partial theorem holds (guard = that of C17_verdict_sound_partial). *)
+Theorem C17_verdict_sound_dir_partial :
+  forall (p : program) (vs : list verdict) (vd : verdict),
+    wf_program p = true -> check_pkg (embed p) = Ok vs -> In vd vs -> guard p vd = true ->
+    deletable_d (embed p) [vd_flagged vd].
+Proof. exact verdict_sound_dir_partial. Qed.
+Print Assumptions C17_verdict_sound_dir_partial.
+
+(* What findGuardLine finds, and why the exemption of the guard is right for a file that is
+   read on its own (closed world): make takes the guard, the body is active, the table is empty.
+   In the whole-package scan other lines come first, and C17_conditional_line_silent_real_conditions
+   with g = None says the model exempts nothing there (seed C17-r5m1 broke exactly that). *)
+Theorem C17_find_guard_shape :
+  forall (p : dprogram) (g : nat),
+    find_guard p = Some g ->
+    exists pre l x post,
+      p = pre ++ l :: post /\ length pre = g /\ dl_body l = DIf true (DCDefined x) /\
+      guard_name_ok x = true /\ Forall (fun l0 => dl_body l0 = DComment) pre.
+Proof. exact find_guard_shape. Qed.
+Print Assumptions C17_find_guard_shape.
+
+Theorem C17_guard_taken_when_read_alone :
+  forall (p : dprogram) (g : nat) (fuel : nat),
+    find_guard p = Some g ->
+    fold_left (exec_dline fuel) (to_spec_d (firstn (S g) p)) dinit
+    = mkD empty_store [mkFrame true true false] false.
+Proof. exact guard_taken_when_read_alone. Qed.
+Print Assumptions C17_guard_taken_when_read_alone.
